@@ -31,9 +31,14 @@ func main() {
 	n := flag.Int("n", 200, "number of generated layouts for the byte-level part")
 	ne := flag.Int("e2e", 30, "number of end-to-end Reader scenarios")
 	only := flag.String("only", "", "run only this part: l1, f1, e2e")
+	replay := flag.String("replay", "", "re-run one l1 case given as \"l1 v=.. off=.. hwm=.. declared=.. late=.. blobs=.. bytes=..\"")
 	flag.Parse()
 	out = bufio.NewWriterSize(os.Stdout, 1<<20)
 	defer out.Flush()
+	if *replay != "" {
+		replayL1(*replay)
+		return
+	}
 	r := rand.New(rand.NewSource(*seed))
 	// watchdog: the whole run must finish
 	go func() {
